@@ -46,6 +46,8 @@ type rewriter struct {
 	extra   map[string]string // import path -> replacement path (adoption)
 	mapNames map[string]bool  // identifiers / field names declared with a map type in this package
 	fieldWr  map[ast.Node]bool // map-typed field selectors that are assigned to
+	fieldNames map[string]bool // all struct field names of the package (race_fields packages only)
+	plainField map[ast.Node]bool // selector instrumented as a plain (non-map) field
 	skipSel map[ast.Node]bool // comm statements handled by their select
 	recv2   map[ast.Node]bool // unary recv expressions in a 2-value context
 	importNames map[string]bool
@@ -68,6 +70,7 @@ func (r *rewriter) collect() {
 		r.importNames[name] = true
 	}
 	r.fieldWr = map[ast.Node]bool{}
+	r.plainField = map[ast.Node]bool{}
 	var stack []ast.Node
 	ast.Inspect(r.file, func(n ast.Node) bool {
 		if n == nil {
@@ -81,7 +84,9 @@ func (r *rewriter) collect() {
 		}
 		switch n := n.(type) {
 		case *ast.SelectorExpr:
-			if r.mapNames[n.Sel.Name] {
+			isMap := r.mapNames[n.Sel.Name]
+			isField := !isMap && r.fieldNames[n.Sel.Name]
+			if isMap || isField {
 				if _, isPkg := n.X.(*ast.Ident); isPkg && r.importNames[n.X.(*ast.Ident).Name] {
 					break
 				}
@@ -93,14 +98,24 @@ func (r *rewriter) collect() {
 							r.fieldWr[n] = true
 						}
 					}
+				case *ast.IncDecStmt:
+					r.fieldWr[n] = true
 				case *ast.UnaryExpr:
 					skip = p.Op == token.AND
 				case *ast.SelectorExpr:
-					skip = p.X == ast.Expr(n) // X.f.g: f is not the map itself
+					skip = isMap && p.X == ast.Expr(n) // X.f.g: f is not the map itself
 				case *ast.KeyValueExpr:
 					skip = p.Key == ast.Expr(n)
+				case *ast.CallExpr:
+					skip = isField && p.Fun == ast.Expr(n) // method value / func-typed field call
+				}
+				if isField && !addressableRoot(n.X) {
+					skip = true
 				}
 				if !skip {
+					if isField {
+						r.plainField[n] = true
+					}
 					r.targets = append(r.targets, n)
 				}
 			}
@@ -228,6 +243,12 @@ func (r *rewriter) rewrite(n ast.Node) string {
 	case *ast.SelectorExpr: // map-typed field: record the access for the race detector
 		r.usedVs = true
 		inner := r.inner(n.Pos(), n.End(), n)
+		if r.plainField[n] {
+			if r.fieldWr[n] {
+				return "*__vs.Wr(&" + inner + ")"
+			}
+			return "(*__vs.Rd(&" + inner + "))"
+		}
 		if r.fieldWr[n] {
 			return "*__vs.WrM(&" + inner + ")"
 		}
@@ -371,6 +392,42 @@ func (r *rewriter) rewriteSelect(n *ast.SelectStmt) string {
 	return b.String()
 }
 
+// addressableRoot: the selector chain starts at a plain identifier (possibly
+// through pointer dereferences), so taking the address of the field is legal.
+func addressableRoot(e ast.Expr) bool {
+	for {
+		switch x := e.(type) {
+		case *ast.Ident:
+			return true
+		case *ast.ParenExpr:
+			e = x.X
+		case *ast.StarExpr:
+			e = x.X
+		case *ast.SelectorExpr:
+			e = x.X
+		default:
+			return false
+		}
+	}
+}
+
+// collectFieldNames gathers the field names of every struct type declared in f.
+func collectFieldNames(f *ast.File, out map[string]bool) {
+	ast.Inspect(f, func(n ast.Node) bool {
+		if st, ok := n.(*ast.StructType); ok && st.Fields != nil {
+			for _, fl := range st.Fields.List {
+				if _, isFunc := fl.Type.(*ast.FuncType); isFunc {
+					continue
+				}
+				for _, id := range fl.Names {
+					out[id.Name] = true
+				}
+			}
+		}
+		return true
+	})
+}
+
 func (r *rewriter) isMapExpr(e ast.Expr) bool {
 	switch x := unparen(e).(type) {
 	case *ast.Ident:
@@ -443,7 +500,7 @@ func unparen(e ast.Expr) ast.Expr {
 	}
 }
 
-func instrumentFile(path string, extra map[string]string, mapNames map[string]bool) ([]byte, error) {
+func instrumentFile(path string, extra map[string]string, mapNames, fieldNames map[string]bool) ([]byte, error) {
 	src, err := os.ReadFile(path)
 	if err != nil {
 		return nil, err
@@ -453,7 +510,7 @@ func instrumentFile(path string, extra map[string]string, mapNames map[string]bo
 	if err != nil {
 		return nil, err
 	}
-	r := &rewriter{fset: fset, src: src, file: f, extra: extra, mapNames: mapNames}
+	r := &rewriter{fset: fset, src: src, file: f, extra: extra, mapNames: mapNames, fieldNames: fieldNames}
 	r.collect()
 	// comm statements of select clauses are rewritten by their select: drop the
 	// nested targets that are exactly those statements.
@@ -497,7 +554,7 @@ func main() {
 	adopt := flag.String("adopt", "", "comma separated importpath=dir=relTarget: copy an external package dir into repo/relTarget (instrumented) and redirect imports")
 	mapOut := flag.String("map", "", "where to write the overlay fragment (JSON)")
 	rebind := flag.String("rebind", "", "comma separated import=relTarget@pkg+pkg: bind an import to a mounted shim package in the listed package dirs only")
-	_ = flag.String("race", "", "reserved")
+	raceFields := flag.String("race", "", "comma separated package dirs whose struct field accesses are all recorded for the race detector")
 	flag.Parse()
 	frag := map[string]string{}
 	extra := map[string]string{}
@@ -545,6 +602,13 @@ func main() {
 			os.Exit(2)
 		}
 		mapNames := map[string]bool{}
+		fieldNames := map[string]bool{}
+		wantFields := false
+		for _, rp := range strings.Split(*raceFields, ",") {
+			if rp != "" && rp == j.relDir {
+				wantFields = true
+			}
+		}
 		for _, e := range ents {
 			name := e.Name()
 			if e.IsDir() || !strings.HasSuffix(name, ".go") || strings.HasSuffix(name, "_test.go") {
@@ -552,6 +616,9 @@ func main() {
 			}
 			if pf, err := parser.ParseFile(token.NewFileSet(), filepath.Join(j.srcDir, name), nil, parser.SkipObjectResolution); err == nil {
 				collectMapNames(pf, mapNames)
+				if wantFields {
+					collectFieldNames(pf, fieldNames)
+				}
 			}
 		}
 		for _, e := range ents {
@@ -566,7 +633,7 @@ func main() {
 				}
 				continue
 			}
-			data, err := instrumentFile(filepath.Join(j.srcDir, name), ex, mapNames)
+			data, err := instrumentFile(filepath.Join(j.srcDir, name), ex, mapNames, fieldNames)
 			if err != nil {
 				fmt.Fprintf(os.Stderr, "INFRA: instr: %s: %v\n", name, err)
 				os.Exit(2)
